@@ -7,6 +7,7 @@ import (
 	"fmt"
 	"math"
 	"os"
+	"os/exec"
 	"strings"
 	"time"
 
@@ -130,6 +131,14 @@ func runTrajectoryHook(sc *Scenario, env *Env, oc *OutputCfg, oracles []Oracle, 
 	}
 	disk := NewSimDisk()
 	out := env.RunSingle(root, w.Args(extraArgs...), hooks, disk)
+	if dd := os.Getenv("VERIF_DUMP_DISK"); dd != "" {
+		os.MkdirAll(dd, 0o755)
+		for _, p := range disk.Paths() {
+			os.WriteFile(dd+"/"+p[strings.LastIndexByte(p, '/')+1:], disk.Get(p).Data, 0o644)
+		}
+		fmt.Fprintln(os.Stderr, "DEBUG input root:", root, "run error:", out.Err)
+		exec.Command("cp", "-r", root, dd+"/input").Run()
+	}
 	for n, c := range natSteps {
 		switch {
 		case n >= 50:
